@@ -315,6 +315,24 @@ func c41RunSave(items []c41Item, order []int, early bool) string {
 	return "SErrItem"
 }
 
+// c41Iterate decodes a tree blob with the real iterator: (IOk names) or IErrFormat
+func c41Iterate(buf []byte) (res string) {
+	res = "IErrFormat"
+	defer func() { _ = recover() }()
+	it, err := data.NewTreeNodeIterator(bytes.NewReader(buf))
+	if err != nil {
+		return
+	}
+	var got []string
+	for item := range it {
+		if item.Error != nil {
+			return
+		}
+		got = append(got, coqHex([]byte(item.Node.Name)))
+	}
+	return "(IOk " + coqList(got) + ")"
+}
+
 func c41SmallNode(name []byte, size uint64) *data.Node {
 	return &data.Node{Name: string(name), Type: data.NodeTypeFile, Size: size}
 }
@@ -487,10 +505,9 @@ func engineC41(c *vctx) error {
 			fmt.Sprintf("%v -> %v", t, f))
 	}
 
-	// (e) TreeJSONBuilder
+	// (e) TreeJSONBuilder; the finished blob is also decoded by the real iterator
 	rng = c.rng.fork()
-	for i := c.n(70, 3000); i > 0; i-- {
-		names := c41Names(rng)
+	buildCase := func(kind string, names [][]byte) {
 		b := data.NewTreeJSONBuilder()
 		var items []string
 		ok := true
@@ -504,24 +521,42 @@ func engineC41(c *vctx) error {
 				}
 			}
 		}
-		obs := "None"
+		obs, dec := "None", "IErrFormat"
 		if ok {
 			buf, err := b.Finalize()
 			if err == nil {
 				obs = "(Some " + coqHex(buf) + ")"
+				dec = c41Iterate(buf)
 			}
 		}
 		c.Hist(fmt.Sprintf("build:ok=%v", ok))
-		c.Case("build", len(names) >= 2, len(names), fmt.Sprintf("C41m.CBuild %s %s", coqList(items), obs), fmt.Sprintf("names=%q ok=%v", names, ok))
+		c.Case(kind, len(names) >= 2, len(names), fmt.Sprintf("C41m.CBuild %s %s %s", coqList(items), obs, dec), fmt.Sprintf("names=%q ok=%v decoded=%.60s", names, ok, dec))
+	}
+	// corpus: the empty name (zero value of lastName) as first entry, alone and followed by more nodes
+	for _, names := range [][][]byte{{{}}, {{}, []byte("a")}, {{}, []byte("a"), []byte("b")}, {{}, {0}}, {{}, {}}, {[]byte("a"), {}},
+		{[]byte("a")}, {[]byte("a"), []byte("b")}, {{0}, {0, 0}}, {[]byte("a"), []byte("a")}} {
+		buildCase("build-empty-name", names)
+	}
+	for i := c.n(70, 3000); i > 0; i-- {
+		buildCase("build", c41Names(rng))
 	}
 
 	// (f) treeSaver.save, two completion orders
 	rng = c.rng.fork()
-	for i := c.n(70, 3000); i > 0; i-- {
+	saveCorpus := [][][]byte{{{}, []byte("a")}, {{}, []byte("a"), []byte("b")}, {{}}, {[]byte("a"), []byte("b")}}
+	for i := c.n(70, 3000) + len(saveCorpus); i > 0; i-- {
 		names := c41Names(rng)
+		plain := false
+		if i <= len(saveCorpus) {
+			names, plain = saveCorpus[i-1], true
+		}
 		var items []c41Item
 		for _, nm := range names {
 			for rep := 0; rep < 3; rep++ {
+				if plain {
+					items = append(items, c41Item{kind: "node", node: c41SmallNode(nm, 0), cls: 0})
+					break
+				}
 				switch {
 				case rng.chance(6):
 					items = append(items, c41Item{kind: "nil"})
